@@ -194,7 +194,7 @@ fn main() {
         }
         "C08" => run_model(vec![(props::c08(), 40000, 800000)], tier, replay),
         "C09" => run_model(vec![(props::c09(), 30000, 600000)], tier, replay),
-        "C10" => run_model(vec![(props::c10(false, true), 5000, 100000), (props::c10(true, false), 5000, 100000), (props::c10(true, true), 500, 10000)], tier, replay),
+        "C10" => run_model(vec![(props::c10(false, true), 5000, 100000), (props::c10(true, false), 5000, 100000), (props::c10(true, true), 500, 10000), (props::c10_backdated(), 3000, 60000)], tier, replay),
         "C11" => run_model(vec![(props::c11(), 10000, 200000)], tier, replay),
         "C14" => run_model(vec![(props::c14(Some(false), Some(0)), 8000, 150000), (props::c14(Some(true), Some(0)), 600, 10000), (props::c14(Some(false), None), 600, 10000)], tier, replay),
         _ => {
